@@ -454,6 +454,13 @@ func (e *env) runSrv(args string) (tags, a, outs string) {
 	}()
 	tags = "srv"
 	a = args
+	if encoded {
+		// the encoder cuts silently at the end of its buffer: is this a complete request?
+		encoded = false
+		if pos, n, c, ok := authParts(req); ok {
+			_, encoded = sivOpen(c2s, n, c, req[:pos])
+		}
+	}
 	if !encoded || len(req) > nts.MaxPacketLen {
 		return tags + ",unencodable", a, lib.L(lib.I(0))
 	}
